@@ -1,4 +1,10 @@
 import MpfVerif.DriverLoop
 import MpfVerif.Model.Delay
-/-! Driver of the C13 model (delays and periodic tasks). -/
-def main : IO UInt32 := MpfVerif.runDriver MpfVerif.Delay.driverStep {}
+import MpfVerif.Model.TimerDevice
+/-! Driver of the C13 models: delays / periodic tasks (default) and the Timer device (lines starting with `tm`). -/
+def c13Step (d : MpfVerif.Delay.DSt × MpfVerif.TimerDevice.DSt) (line : String) :
+    (MpfVerif.Delay.DSt × MpfVerif.TimerDevice.DSt) × String :=
+  match (line.splitOn " ").filter (fun x => x != "") with
+  | "tm" :: rest => let r := MpfVerif.TimerDevice.driverStep d.2 rest; ((d.1, r.1), r.2)
+  | _ => let r := MpfVerif.Delay.driverStep d.1 line; ((r.1, d.2), r.2)
+def main : IO UInt32 := MpfVerif.runDriver c13Step ({}, {})
